@@ -31,13 +31,18 @@ def run_case(rs, ctx):
     sh = gen.Shadow(cfg, nf0)
     prior = gen.gen_ops(rs, cfg, sh, 1, ["fit"], train_rows=(6, 30)) + \
         gen.gen_ops(rs, cfg, sh, int(rs.integers(2, 12)), PRIOR, train_rows=(1, 8))
+    if p == "none" and l != "rnd" and not gen.has_probs(cfg) and rs.integers(2):
+        # leave a warm-started, never observed arm behind: the one kind of learned state that is neither "trained" nor "cold"
+        prior += gen.gen_ops(rs, cfg, sh, 1, ["add_arm"])
+        if sh.fitted and len(sh.arms) >= 2:
+            prior.append(gen.gen_warm(rs, sh.arms, q=1.0))
     rows_before = sh.rows
     M = gen.build(cfg)
     out = gen.run_ops(M, prior)
     if any(isinstance(o, list) and o and o[0] == "EXC" for o in out):
         # a documented-domain prior history must not raise; not C07's business to judge which property broke
         ctx.count("prior_history_raised")
-    nf1 = int(gen.pick(rs, [nf0, nf0, 1, 2, 3, 5])) if gen.is_ctx(cfg) else nf0
+    nf1 = int(gen.pick(rs, [nf0, nf0, nf0, 1, 2, 3, 5])) if gen.is_ctx(cfg) else nf0
     sh.nf = nf1
     nD = int(gen.pick(rs, [max(gen.min_rows(cfg), 2), 5, 12, 40]))
     nD = max(nD, gen.min_rows(cfg))
